@@ -139,7 +139,9 @@ def make_functions(cluster):
            "@memento_function(cluster=%r)\ndef work(x):\n    c09.REC.log(x)\n    return [x, x * x, 'v']\n\n\n"
            "@memento_function(cluster=%r)\ndef other(x):\n    c09.REC.log(x + 100)\n    return [x, x * x, 'v']\n\n\n"
            "@memento_function(cluster=%r)\ndef outer(x):\n    c09.REC.log(x)\n    w = work(x - 200)\n"
-           "    return [x, x * x, 'v' if w == [x - 200, (x - 200) * (x - 200), 'v'] else 'inner-wrong']\n" % (cluster, cluster, cluster))
+           "    return [x, x * x, 'v' if w == [x - 200, (x - 200) * (x - 200), 'v'] else 'inner-wrong']\n\n\n"
+           "@memento_function(cluster=%r)\ndef proc(x):\n    c09.REC.log(x + 300)\n    return None\n\n\n"
+           "@memento_function(cluster=%r)\ndef add(a, b):\n    c09.REC.log(400 + a * 10 + b)\n    return a + b\n" % (cluster, cluster, cluster, cluster, cluster))
     fname = "<%s>" % modname
     linecache.cache[fname] = (len(src), None, src.splitlines(True), fname)
     mod = types.ModuleType(modname)
@@ -147,7 +149,74 @@ def make_functions(cluster):
     sys.modules[modname] = mod
     sys.modules.setdefault("c09", sys.modules[__name__])
     exec(compile(src, fname, "exec"), mod.__dict__)
+    _last_module[0] = mod
     return mod.work, mod.other, mod.outer
+
+
+_last_module = [None]
+
+# family V: the same distinct call made by two threads in ways the plain scenarios do not use: a result that is None, a second
+# caller that ignores the result, two spellings of one call (direct and through a partial application), and a batch whose bulk
+# look-up runs while another thread makes one of its calls (warm store, cold cache). Oracle only.
+VARIANTS = [
+    dict(name="none-result/cold/same-key", warm=[], cache="none"),
+    dict(name="ignore-result-waiter/cold/same-key", warm=[], cache="none"),
+    dict(name="two-spellings-of-one-call/cold", warm=[], cache="none"),
+    dict(name="batch-lookup-vs-single/warm-store-cold-cache", warm=[5, 6, 7], cache="cold"),
+]
+
+
+def variant_trial(var, schedule, root):
+    """returns (failures, steps)"""
+    import twosigma.memento as m
+    import twosigma.memento.runner_local as rl
+    from twosigma.memento import Environment, ConfigurationRepository, FunctionCluster
+    from twosigma.memento.storage_filesystem import FilesystemStorageBackend
+    st = FilesystemStorageBackend(path=os.path.join(root, "s"), memory_cache_mb=(None if var["cache"] == "none" else 4))
+    prev = m.Environment.get()
+    m.Environment.set(Environment(name="c09", base_dir=root, repos=[ConfigurationRepository(name="r", clusters={"c09": FunctionCluster(name="c09", storage=st)})]))
+    try:
+        work, other, outer = make_functions("c09")
+        mod = _last_module[0]
+        for x in var["warm"]:
+            work(x)
+        if var["cache"] == "cold":
+            st._memory_cache.forget_everything()
+        del LOG[:]
+        val = lambda x: [x, x * x, "v"]
+        kind = var["name"].split("/")[0]
+        if kind == "none-result":
+            thunks, want, once = [lambda: mod.proc(5), lambda: mod.proc(5)], [None, None], {305: 1}
+        elif kind == "ignore-result-waiter":
+            thunks, want, once = [lambda: work(5), lambda: work.ignore_result()(5)], [val(5), None], {5: 1}
+        elif kind == "two-spellings-of-one-call":
+            thunks, want, once = [lambda: mod.add(1, 2), lambda: mod.add.partial(1)(2)], [3, 3], {412: 1}
+        else:
+            thunks, want, once = [lambda: work.call_batch([{"x": 5}, {"x": 6}, {"x": 7}]), lambda: work(5)], [[val(5), val(6), val(7)], val(5)], {5: 0, 6: 0, 7: 0}
+
+        def wrap(i, f):
+            def go():
+                _tid.i = i + 1
+                return f()
+            return go
+        import twosigma.memento.storage_base as sbase
+        import twosigma.memento.storage_filesystem as sfs
+        rl_file = rl.__file__
+        files = {sbase.__file__, sfs.__file__}
+        S = sched.Sched(lambda c: c.co_filename == rl_file or c.co_filename == sbase.__file__, block_timeout=0.08,
+                        want_call=lambda c: c.co_filename in files)
+        results, steps, _ = S.run([wrap(i, f) for i, f in enumerate(thunks)], schedule)
+        fails = []
+        for i, (r, w) in enumerate(zip(results, want)):
+            if r != ("ok", w):
+                fails.append(dict(clause="correct-value" if r[0] == "ok" else "no-internal-error", thread=i, got=str(r)[:200], expected=str(w)))
+        execs = collections.Counter(e[2] for e in LOG if e[0] == "exec")
+        for x, n in once.items():
+            if execs.get(x, 0) > n:
+                fails.append(dict(clause="single-flight", arg=x, executions=execs.get(x, 0), expected=n))
+        return fails, steps
+    finally:
+        m.Environment.set(prev)
 
 
 def cache_accounts(storage):
@@ -502,6 +571,8 @@ def main(chk, replay=None):
         try:
             if replay.get("family") == "L":
                 fails = long_flight(root)
+            elif replay.get("family") == "V":
+                fails, _ = variant_trial(replay["variant"], [tuple(s) for s in replay["schedule"]], root)
             elif replay.get("family") == "B":
                 fails, _ = cache_trial([tuple(o) for o in replay["ops"]], [tuple(s) for s in replay["schedule"]])
             else:
@@ -515,7 +586,7 @@ def main(chk, replay=None):
                 "threads) x schedules forced at line granularity in runner_local.py: every single preemption point for both thread "
                 "orders (quick: stride 3) + seeded random schedules with up to 6 preemptions; family B: 6 pairs/triples of MemoryCache "
                 "operations x every single preemption point inside the cache's methods + random; family C: the in-memory backend with "
-                "every function entry inside the storage modules as a further yield point (oracle only); plus one call kept in flight "
+                "every function entry inside the storage modules as a further yield point (oracle only); family V: a None result, a second caller that ignores the result, two spellings of one call (direct / partial), a batch whose bulk look-up runs while another thread makes one of its calls (oracle only); plus one call kept in flight "
                 "across 1100 other invocations. Distinct = distinct (scenario, "
                 "schedule); non-trivial = >= 1 preemption before a thread finished.")
     proof_ok = chk.build_and_audit()
@@ -578,6 +649,27 @@ def main(chk, replay=None):
             if fails and reported < 5:
                 p = chk.violation({"what": "concurrent callers (%s): %s" % (sc["name"], fails[0]["clause"]), "class": {"clause": fails[0]["clause"], "family": "C"},
                                    "family": "A", "scenario": sc, "schedule": sch, "observed": fails[:3]})
+                reported += bool(p)
+    for var in VARIANTS:
+        root = tempfile.mkdtemp(prefix="c09v_", dir=chk.tmpdir())
+        _, steps = variant_trial(var, [(0, 10 ** 6), (1, 10 ** 6)], root)
+        shutil.rmtree(root, ignore_errors=True)
+        nsteps = max(steps)
+        scheds = schedules_single_preemption(nsteps, 2, stride=(max(1, nsteps // 25) if quick else 1))
+        scheds += [random_schedule(rng, 2, nsteps, rng.randint(2, 5)) for _ in range(6 if quick else 100)]
+        for sch in scheds:
+            root = tempfile.mkdtemp(prefix="c09v_", dir=chk.tmpdir())
+            try:
+                fails, _ = variant_trial(var, sch, root)
+            except sched.Deadlock as e:
+                fails = [dict(clause="no-deadlock", error=str(e))]
+            finally:
+                shutil.rmtree(root, ignore_errors=True)
+            chk.case([var["name"], sch], nontrivial=True, sample=dict(scenario=var["name"], schedule=sch[:4]))
+            chk.count("scenario:" + var["name"])
+            if fails and reported < 8:
+                p = chk.violation({"what": "concurrent callers (%s): %s" % (var["name"], fails[0]["clause"]), "class": {"clause": fails[0]["clause"], "family": "V"},
+                                   "family": "V", "variant": var, "schedule": sch, "observed": fails[:3]})
                 reported += bool(p)
     root = tempfile.mkdtemp(prefix="c09_", dir=chk.tmpdir())
     lf = long_flight(root)
